@@ -36,8 +36,12 @@ static void tadd(const char *fmt, long a, long b)
 static int is_data_aid(int32 aid)
 {
     uint16 tag = 0, ref = 0;
-    if (Hinquire(aid, NULL, &tag, &ref, NULL, NULL, NULL, NULL, NULL) == FAIL) return 0;
-    return (tag & 0xbfff) == DFTAG_SD; /* also the special (linked-block) form of the tag */
+    int16 special = 0;
+    if (Hinquire(aid, NULL, &tag, &ref, NULL, NULL, NULL, NULL, &special) == FAIL) return 0;
+    if (tag == DFTAG_SD) return 1;
+    /* linked-block form of the element: only the user-level access (special != 0), not the library's own
+       raw accesses to the special-element header that carry the same tag */
+    return (tag & 0xbfff) == DFTAG_SD && special != 0;
 }
 
 int32 __real_Hwrite(int32 aid, int32 length, const void *data);
